@@ -9,6 +9,7 @@ import Driver.C07
 import Driver.C08
 import Driver.C11
 import Driver.C12
+import Driver.C14
 import Driver.C15
 import Driver.C16
 import Driver.C17
@@ -27,7 +28,7 @@ def step (st : DState) (line : String) : DState × String :=
   match toks with
   | [] => (st, "bad-op")
   | _ =>
-    let hs : List (List String → Option String) := [Driver.C01.handle, Driver.C02.handle, Driver.C03.handle, Driver.C04.handle, Driver.C05.handle, Driver.C06.handle, Driver.C07.handle, Driver.C08.handle, Driver.C11.handle, Driver.C12.handle, Driver.C15.handle, Driver.C16.handle, Driver.C17.handle, Driver.C18.handle]
+    let hs : List (List String → Option String) := [Driver.C01.handle, Driver.C02.handle, Driver.C03.handle, Driver.C04.handle, Driver.C05.handle, Driver.C06.handle, Driver.C07.handle, Driver.C08.handle, Driver.C11.handle, Driver.C12.handle, Driver.C14.handle, Driver.C15.handle, Driver.C16.handle, Driver.C17.handle, Driver.C18.handle]
     match hs.findSome? (fun h => h toks) with
     | some r => (st, r)
     | none => (st, "bad-op")
